@@ -133,3 +133,19 @@ theorem C08_index_ante_op (cfg : Config) (env : Env) (s : State) (i : Nat)
 /-- non-vacuity: a concrete state in which a refusal actually happens -/
 example : verifyOp (default : Config) ⟨fun _ _ _ => .ok 0, id, fun _ _ => .ok none⟩ ({} : State) .opFold
     = .error .valueError := by rfl
+
+/-- **`get_up_hand` never raises** for a hand type of the game, whatever cards - unknown ones included - lie
+    face up or on the board (F30: before the repair a KeyError of the lookup escaped through `can_win_now` into
+    `can_show_or_muck_hole_cards`) -/
+theorem C08_getUpHand_total (cfg : Config) (env : Env) (s : State) (i b k : Nat) (hk : k < cfg.handTypes.length) :
+    ∃ v, s.getUpHand cfg env i b k = .ok v := by
+  unfold State.getUpHand
+  split
+  · exact ⟨none, rfl⟩
+  · have : cfg.handTypes[k]? = some cfg.handTypes[k] := List.getElem?_eq_getElem hk
+    rw [this]
+    simp only []
+    split
+    · exact ⟨_, rfl⟩
+    · exact ⟨none, rfl⟩
+    · exact ⟨none, rfl⟩
